@@ -203,6 +203,44 @@ func rlpMode(r *sim.Rng, nBlocks int, cw *sim.CaseWriter) {
 			offer(k, mustBytes(t), fl, false, kind)
 		}
 	}
+	// the legacy "RLP" wrapper (replay protection by transaction hash only): one signed typed Ethereum transfer, executed; then the
+	// same signature under other encodings of V (not covered by the Ethereum signature hash: 27+v, 35+v, 35+2j+v) - each copy has
+	// another Canopy hash and another Ethereum hash, and none of them was signed by the owner as a further payment
+	if pv, e := n.FSM.GetParams(); e == nil && pv != nil {
+		n.Enter()
+		raw := sign(keys[0], n.FSM.Height(), 5, 21000, legacyChainID) // the legacy wrapper reads the Ethereum nonce as the created height
+		if t, e := fsm.RLPToCanopyTransaction(raw); e == nil {
+			out := n.Apply(&sim.BlockSpec{Txs: [][]byte{mustBytes(t)}})
+			if out.Err == nil && out.Results != nil && len(out.Results.Results) == 1 {
+				st.Chain["rlp-legacy:typed-transfer:executed=true"]++
+				orig := new(ethTypes.Transaction)
+				_ = orig.UnmarshalBinary(raw)
+				v, rr, ss := orig.RawSignatureValues()
+				for _, add := range []uint64{27, 35, 2035} {
+					n.Enter()
+					re := ethTypes.NewTx(&ethTypes.DynamicFeeTx{ChainID: orig.ChainId(), Nonce: orig.Nonce(), GasTipCap: orig.GasTipCap(), GasFeeCap: orig.GasFeeCap(), Gas: orig.Gas(),
+						To: orig.To(), Value: orig.Value(), Data: orig.Data(), V: new(big.Int).Add(v, new(big.Int).SetUint64(add)), R: rr, S: ss})
+					raw2, e2 := re.MarshalBinary()
+					if e2 != nil {
+						continue
+					}
+					t2, e3 := fsm.RLPToCanopyTransaction(raw2)
+					executed := false
+					if e3 == nil {
+						o2 := n.Apply(&sim.BlockSpec{Txs: [][]byte{mustBytes(t2)}})
+						executed = o2.Err == nil && o2.Results != nil && len(o2.Results.Results) == 1
+					}
+					st.Chain[fmt.Sprintf("rlp-legacy:re-encoded-v:executed=%v", executed)]++
+					if executed {
+						sim.Direct(outDirG, map[string]any{"finding": "one-ethereum-signature-executed-again", "kind": "a typed Ethereum transaction signed once was executed again under another encoding of V",
+							"v_offset": add})
+					}
+				}
+			} else {
+				st.Chain["rlp-legacy:typed-transfer:executed=false"]++
+			}
+		}
+	}
 	// far beyond the height window: the included ones once more (the window does not apply to these; the floor must hold)
 	n.Enter()
 	n.FSM.VerifSetHeight(n.FSM.Height() + uint64(fsm.BlockAcceptanceRange) + 5)
